@@ -620,19 +620,21 @@ func polyOf(t *pt) spoly {
 // ---------- interpreter hooks ----------
 
 type protoDom struct {
-	e            *sched
-	draws        int
-	globals      map[string]func(st *sState) sVal
-	notes        []string
-	gLocals      int
-	tpkCalls     int
-	stream       bool // stream domain (package sm3): mutable fields, struct copies, loop acceleration
-	loopVars     int
-	structPoints bool // decoder mode: SM2Point values are ordinary structs of three elements
-	glue         bool // glue mode: slices are symbolic shapes (checker/glue.go)
-	contracts    map[string]*xContract
-	gOK          map[string]int
-	gBad         map[string][]string
+	e               *sched
+	draws           int
+	globals         map[string]func(st *sState) sVal
+	notes           []string
+	gLocals         int
+	tpkCalls        int
+	stream          bool // stream domain (package sm3): mutable fields, struct copies, loop acceleration
+	loopVars        int
+	structPoints    bool              // decoder mode: SM2Point values are ordinary structs of three elements
+	readHelpers     map[string]string // hand-written full reads of the random source that were used by contract (readhelper.go)
+	readHelperShape bool
+	glue            bool // glue mode: slices are symbolic shapes (checker/glue.go)
+	contracts       map[string]*xContract
+	gOK             map[string]int
+	gBad            map[string][]string
 }
 
 func (st *sState) addFact(f pFact) { st.pfacts = append(st.pfacts, f) }
